@@ -76,6 +76,22 @@ def _file(P, name, writer):
     return open(p).read()
 
 
+def _aug(P, key, other, op):
+    """augmented assignment on a local alias: `x = pool[key]; x op= other` - the pool object itself must stay what it was"""
+    x = P[key]
+    if op == "+":
+        x += other
+    elif op == "-":
+        x -= other
+    elif op == "*":
+        x *= other
+    elif op == "/":
+        x /= other
+    elif op == "**":
+        x **= other
+    return x
+
+
 def menu():
     from orquestra.quantum import circuits as C
     from orquestra.quantum import operators as O
@@ -175,6 +191,21 @@ def menu():
         "matrix.expand": lambda P: get_pauliop_from_matrix(P["matrix"]),
         "evolve.sum": lambda P: time_evolution(P["herm"], 0.3, n_steps=2),
         "evolve.term": lambda P: time_evolution_for_term(P["term"], 0.3),
+        # augmented assignments through an alias
+        "sum+=term": lambda P: _aug(P, "sum", P["term"], "+"),
+        "sum+=sum": lambda P: _aug(P, "sum", P["sum_dup"], "+"),
+        "sum+=num": lambda P: _aug(P, "sum", 2.5, "+"),
+        "sum-=term": lambda P: _aug(P, "sum", P["term"], "-"),
+        "sum*=term": lambda P: _aug(P, "sum", P["term"], "*"),
+        "sum*=num": lambda P: _aug(P, "sum", 2j, "*"),
+        "sum/=num": lambda P: _aug(P, "sum", 4, "/"),
+        "sum**=2": lambda P: _aug(P, "sum", 2, "**"),
+        "term+=term": lambda P: _aug(P, "term", P["term_like"], "+"),
+        "term*=term": lambda P: _aug(P, "term", P["term_like"], "*"),
+        "term*=num": lambda P: _aug(P, "term", 3, "*"),
+        "term/=num": lambda P: _aug(P, "term", 3, "/"),
+        "circ+=op": lambda P: _aug(P, "circ", P["gop"], "+"),
+        "circ+=circ": lambda P: _aug(P, "circ_num", P["circ_mp"], "+"),
         # measurements
         "meas.counts": lambda P: P["meas"].get_counts(),
         "meas.distribution": lambda P: P["meas"].get_distribution(),
